@@ -94,6 +94,8 @@ def run(ctx: Ctx) -> None:
         for k, v in total["unsupported"].items():
             unsupported[k] = unsupported.get(k, 0) + v
         for cat in CATS:
+            if cat == "C01":
+                continue          # the round trip of a program is judged by C01 (which runs the same kinds); here: uniformity against the model
             for f in sorted(total[cat], key=lambda f: (f["size"], json.dumps(f["sig"], sort_keys=True))):
                 ctx.violation({**f["sig"], "cat": cat}, f"[{f['sig'].get('kind')}] {f['sig']['what']}: {f['detail'][:230]}",
                               {"category": cat, "program": f["case"], "detail": f["detail"], "count": f["count"],
